@@ -98,6 +98,20 @@ type LockInv struct {
 	Imports     map[string]string
 }
 
+// TypeInv: an invariant of every object of a struct type reachable through a non-nil pointer.
+// It is assumed wherever such a pointer is obtained and proved at the exits of the
+// constructors named in By (the only functions allowed to allocate the type).
+type TypeInv struct {
+	Type    string
+	Var     string
+	By      []string
+	E       Expr
+	Src     string
+	PkgPath string
+	Imports map[string]string
+	Assumed bool
+}
+
 type WriteHook struct {
 	Type, Field string
 	X, Old, New string
@@ -135,6 +149,7 @@ type Spec struct {
 	Immutable   map[string]bool       // pkgpath.T.f
 	LockInvs    map[string][]*LockInv // pkgpath.T.lockfield
 	Sorts       map[string]bool
+	TypeInvs    map[string]*TypeInv // pkgpath.T
 	Preds       map[string]*SpecFunc  // by simple name (and pkgname.Name)
 	Axioms      []*Axiom
 	Hooks       map[string]*WriteHook // pkgpath.T.f
@@ -152,6 +167,7 @@ func newSpec() *Spec {
 		Immutable:   map[string]bool{},
 		LockInvs:    map[string][]*LockInv{},
 		Sorts:       map[string]bool{},
+		TypeInvs:    map[string]*TypeInv{},
 		Preds:       map[string]*SpecFunc{},
 		Hooks:       map[string]*WriteHook{},
 		FuncTypes:   map[string]*FuncSpec{},
@@ -161,7 +177,7 @@ func newSpec() *Spec {
 var topKeywords = map[string]bool{
 	"package": true, "import": true, "ghost": true, "guarded_by": true, "immutable": true,
 	"lockinv": true, "pred": true, "spec": true, "axiom": true, "lemma": true, "on": true,
-	"func": true, "pure": true, "functype": true, "sort": true,
+	"func": true, "pure": true, "functype": true, "sort": true, "typeinv": true,
 }
 var fnKeywords = map[string]bool{
 	"requires": true, "ensures": true, "ensures_on_panic": true, "modifies": true, "nopanic": true,
@@ -402,6 +418,23 @@ func (sp *Spec) loadSpecFile(path, prefix, pkgPath, pkgName string, assumed bool
 			} else {
 				imports[f[0]] = strings.Trim(f[1], `"`)
 			}
+		case "typeinv":
+			// typeinv T(x) [by F1, F2]: expr
+			m := regexp.MustCompile(`^(\w+)\((\w+)\)\s*(?:by\s+([^:]+))?:\s*(.*)$`).FindStringSubmatch(it.text)
+			if m == nil {
+				return fail(fmt.Errorf("typeinv T(x) [by F,...]: expr"))
+			}
+			e, err := parseExpr(m[4])
+			if err != nil {
+				return fail(err)
+			}
+			ti := &TypeInv{Type: m[1], Var: m[2], E: e, Src: m[4], PkgPath: pkgPath, Imports: imports, Assumed: assumed}
+			for _, b := range strings.Split(m[3], ",") {
+				if b = strings.TrimSpace(b); b != "" {
+					ti.By = append(ti.By, pkgPath+"."+b)
+				}
+			}
+			sp.TypeInvs[pkgPath+"."+m[1]] = ti
 		case "sort":
 			for _, n := range strings.Fields(it.text) {
 				sp.Sorts[n] = true
